@@ -165,7 +165,8 @@ Proof.
   assert (Hi : (i < length ns)%nat) by (unfold i; lia).
   rewrite (nth_indep _ (-1) (F (Z.of_nat 0))) by (rewrite !map_length, seq_length; exact Hi).
   rewrite map_map. rewrite (map_nth (fun x => F (Z.of_nat x))).
-  rewrite seq_nth by exact Hi. unfold rt, F. f_equal. unfold i. lia.
+  rewrite seq_nth by exact Hi.
+  replace (Z.of_nat (1 + i)) with (nm n) by (unfold i; lia). reflexivity.
 Qed.
 
 Lemma obs_sum ns es :
@@ -196,7 +197,9 @@ Proof.
   destruct (0 <? to_part total ns).
   - destruct (needs_adjust n) eqn:E.
     + assert (He : In (n, init_runtime n) (adj_es ns)) by (apply adj_In; cbn [fst snd]; auto).
-      destruct (iter_bounds _ _ _ _ _ (iterate_Iter _ _ _ _) (adj_unsat ns) _ He) as [r [Hr Hrb]].
+      pose proof (iterate_Iter (S (length (adj_es ns))) (to_part total ns)
+                    (wsum (adj_es ns)) (adj_es ns)) as HI.
+      destruct (iter_bounds _ _ _ _ _ HI (adj_unsat ns) _ He) as [r [Hr Hrb]].
       cbn [fst snd] in Hr, Hrb. apply needs_adjust_true in E. destruct E as [E1 E2].
       exists r. split; [apply in_or_app; right; exact Hr|].
       repeat split; intros; try lia; try congruence.
